@@ -65,6 +65,11 @@ CATALOGUE = [
     '<dtml-in s3 mapping="" sort_expr="sk"></dtml-in>'[:0] +
     '<dtml-in "s3" sort_expr="sk" reverse><dtml-var xi></dtml-in>',
     '<dtml-var va size=stt etc="~"><dtml-var sk upper>',
+    '<dtml-in s3 sort="va/nocase"><dtml-var va>,</dtml-in>',
+    '<dtml-in s3 sort="xi/cmp,va/nocase/desc" reverse_expr="rv">'
+    '<dtml-var va><dtml-var xi>,</dtml-in>',
+    '<dtml-try><dtml-var fe><dtml-except ValueError>V<dtml-except OSError>O'
+    '<dtml-except>other</dtml-try><dtml-var vby>|',
 ]
 
 
@@ -86,6 +91,46 @@ def namespaces():
 POOL = namespaces()
 
 
+_STATE = []
+
+
+def reset_global_state():
+    """Module- and class-level mutable containers of the package (lazy
+    command tables, caches) are put back to their state at import time
+    before every schedule, so that 'first use in the process' code paths
+    are explored by every schedule and no state leaks between schedules."""
+    import copy
+    import sys
+    if not _STATE:
+        import importlib
+        import pkgutil
+        for pkg in ('DocumentTemplate', 'TreeDisplay'):
+            m = importlib.import_module(pkg)
+            for info in pkgutil.iter_modules(m.__path__, pkg + '.'):
+                if not info.ispkg:
+                    importlib.import_module(info.name)
+        for name, mod in sorted(sys.modules.items()):
+            if mod is None or '.tests' in name or not (
+                    name.split('.')[0] in ('DocumentTemplate',
+                                           'TreeDisplay')):
+                continue
+            holders = [mod] + [v for v in vars(mod).values()
+                               if isinstance(v, type) and
+                               v.__module__ == name]
+            for h in holders:
+                for k, v in list(vars(h).items()):
+                    if k.startswith('__') or k in ('COOKLOCK',):
+                        continue
+                    if type(v) in (dict, list, set):
+                        _STATE.append((v, copy.copy(v)))
+        _STATE.append((None, None))
+    for v, snap in _STATE:
+        if v is None or v == snap:
+            continue
+        v.clear()
+        (v.extend if isinstance(v, list) else v.update)(snap)
+
+
 def call_for(template, spec):
     world = World()
     ns = build_ns(spec, world, 'impl')
@@ -97,6 +142,7 @@ def call_for(template, spec):
 
 
 def sequential(src, syntax, spec):
+    reset_global_state()
     t = harness.make_template(src, syntax)
     try:
         return ('ok', call_for(t, spec)())
@@ -106,6 +152,7 @@ def sequential(src, syntax, spec):
 
 def run_schedule(src, syntax, specs, segments, cooked):
     from vf.sched import Sched
+    reset_global_state()
     t = harness.make_template(src, syntax)
     if cooked:
         t.cook()
@@ -129,11 +176,12 @@ def judge(res, expected, preempted_at):
     return None
 
 
-def sweep(acc, src, syntax, i, j, stride1=1, two=False, stride2=40):
+def sweep(acc, src, syntax, i, j, stride1=1, two=False, stride2=40,
+          modes=(True, False)):
     """All single-preemption schedules of threads (ns i, ns j)."""
     specs = [POOL[i], POOL[j]]
     expected = [sequential(src, syntax, s) for s in specs]
-    for cooked in (True, False):
+    for cooked in modes:
         res, steps, _ = run_schedule(src, syntax, specs, [], cooked)
         bad = judge(res, expected, [])
         case = dict(src=src, syntax=syntax, ns=[i, j], segments=[],
@@ -200,9 +248,9 @@ def plan(tier, seed):
     pairs = [(0, 1), (1, 2), (3, 0), (2, 4)]
     for k, src in enumerate(CATALOGUE):
         i, j = pairs[k % len(pairs)]
-        shards.append(dict(kind='sweep', src=src, ns=[i, j],
-                           stride1=2 if tier == 'quick' else 1,
-                           two=tier == 'thorough'))
+        for mode in (True, False):
+            shards.append(dict(kind='sweep', src=src, ns=[i, j], stride1=1,
+                               two=tier == 'thorough', modes=[mode]))
         if tier == 'thorough':
             a, b = pairs[(k + 1) % len(pairs)]
             shards.append(dict(kind='sweep', src=src, ns=[a, b], stride1=1,
@@ -217,7 +265,8 @@ def run_shard(shard):
     acc = Acc(ID, sample_every=997)
     if shard['kind'] == 'sweep':
         sweep(acc, shard['src'], 'dtml', shard['ns'][0], shard['ns'][1],
-              stride1=shard['stride1'], two=shard['two'])
+              stride1=shard['stride1'], two=shard['two'],
+              modes=shard.get('modes', (True, False)))
         return acc.result()
     strat = random_strategy()
 
